@@ -309,7 +309,7 @@ def _manager_connect(ctx, R, roles, T):
                 inner = a
                 if a[0] == "call" and a[1] in ("builtins.bytearray", "builtins.bytes") and a[2]:
                     inner = a[2][0]
-                if not (inner[0] == "call" and inner[1] == ".GetPublicKey" and inner[2] == (("sub", ("p", "rsa_keys"), ("c", 0)),)):
+                if not (inner[0] == "call" and inner[1] == ".GetPublicKey" and inner[2] == (("proj", ("p", "rsa_keys"), 0),)):
                     okd = False
         R.check(okd, "HS-pubkey", q + "|payload", "payload = public key of rsa_keys[0] + NUL", "public-key payload is %s, expected GetPublicKey(rsa_keys[0]) + NUL" % show(d), f.loc(pk.node.ast))
         if len(cbs) == 1:
